@@ -479,6 +479,8 @@ def bool_effect(ctx, setter, opt, args, guards):
     other = [g for g in guards if g not in (flag, "!" + flag)]
     cond = [g for g in guards if g in (flag, "!" + flag)]
     default = ctor_default(ctx, setter)
+    if len(cond) == 1 and a in (flag, "!" + flag):
+        a = "true" if a == cond[0] else "false"          # the flag's own value under a test of the flag is a constant
     if a in ("true", "false") and len(cond) == 1 and default is not None:
         v = a == "true"
         return ((v, default) if cond[0] == flag else (default, v)), other
